@@ -114,7 +114,19 @@ impl<T> Iterator for HintIter<T> {
     }
 }
 
+/// small-scope mode (`fcv dfsb`): every decision that reaches the group is drawn with a small arity so that the
+/// depth-first odometer can enumerate ALL histories of the scope; decisions that do not influence the library
+/// (by-value vs by-ref fires, waker reuse, weights) are fixed
+#[derive(Clone, Copy, Debug)]
+pub struct SmallB {
+    pub cap0: usize,
+    pub keyed: bool,
+    pub max_ops: usize,
+    pub members: usize,
+}
+
 thread_local! {
+    static SMALL: std::cell::Cell<Option<SmallB>> = std::cell::Cell::new(None);
     static MASS: std::cell::Cell<bool> = std::cell::Cell::new(false);
     static MASS_CLASS: std::cell::Cell<usize> = std::cell::Cell::new(0);
 }
@@ -146,6 +158,10 @@ impl Hist {
         let m: BTreeMap<usize, Cid> = self.live.iter().map(|(k, c)| (self.slot_ids[k], *c)).collect();
         w(|w| w.live_slot = m);
     }
+}
+
+fn small() -> Option<SmallB> {
+    SMALL.with(|s| s.get())
 }
 
 fn new_member(h: &mut Hist, p: &Profile, nested_pct: u32) -> (Member, Cid) {
@@ -202,7 +218,7 @@ fn new_member(h: &mut Hist, p: &Profile, nested_pct: u32) -> (Member, Cid) {
             let mut c = Child::leaf(if streams { Kind::LeafStr } else { Kind::LeafFut }, script);
             c.parent = Some((0, idx));
             c.wake_on_drop = w.chance(p.drop_wake_pct);
-            c.hint_mode = [0u8, 1, 2][w.below(3)];
+            c.hint_mode = if small().is_some() { 0 } else { [0u8, 1, 2][w.below(3)] };
             if c.never {
                 w.st.never_children += 1;
             }
@@ -218,6 +234,20 @@ fn new_member(h: &mut Hist, p: &Profile, nested_pct: u32) -> (Member, Cid) {
 
 pub fn run(prop: &str, thorough: bool, case_seed: u64, sub: u64) -> ExecOut {
     reset(Src::Rng(case_seed), true);
+    SMALL.with(|s| s.set(None));
+    run_inner(prop, thorough, sub)
+}
+
+/// one history of the small scope; the caller has installed the decision source (`Src::Script`)
+pub fn run_small(prop: &str, sb: SmallB) -> ExecOut {
+    SMALL.with(|s| s.set(Some(sb)));
+    let o = run_inner(prop, false, 0);
+    SMALL.with(|s| s.set(None));
+    o
+}
+
+fn run_inner(prop: &str, thorough: bool, sub: u64) -> ExecOut {
+    let sm = small();
     let prop_s: &'static str = match prop {
         "C11" => "C11",
         "C12" => "C12",
@@ -230,16 +260,29 @@ pub fn run(prop: &str, thorough: bool, case_seed: u64, sub: u64) -> ExecOut {
         }
     };
     let streams = prop_s == "C12";
-    let mut p = engine_a::profile("ALL", thorough);
-    p.max_items = 3;
-    p.never_pct = 12;
-    let c02 = prop == "C02";
+    let mut p = engine_a::profile(if sm.is_some() { "SMALL" } else { "ALL" }, thorough);
+    if sm.is_some() {
+        p.midfire_pct = 0;
+        p.err_pct = 0;
+        p.drop_wake_pct = 0;
+    } else {
+        p.max_items = 3;
+        p.never_pct = 12;
+    }
+    let c02 = prop == "C02" && sm.is_none();
     let (polls0, pend0) = w(|w| {
         w.midfire_pct = p.midfire_pct;
+        if sm.is_some() {
+            w.small_mode = true;
+            w.record_decisions = true;
+        }
         w.inject_panic = c02;
         (w.st.root_polls, w.st.child_pending)
     });
-    let (cap0, keyed, nested_pct) = w(|w| (w.below(4), w.below(3) != 0, if w.below(4) == 0 { 30 } else { 0 }));
+    let (cap0, keyed, nested_pct) = match sm {
+        Some(sb) => (sb.cap0, sb.keyed, 0),
+        None => w(|w| (w.below(4), w.below(3) != 0, if w.below(4) == 0 { 30 } else { 0 })),
+    };
     // group node = child 0
     w(|w| {
         let mut c = Child::node(if streams { Fam::SGroup } else { Fam::FGroup }, Cont::Group, 0);
@@ -251,13 +294,23 @@ pub fn run(prop: &str, thorough: bool, case_seed: u64, sub: u64) -> ExecOut {
     });
     let mut h = Hist { streams, keyed, live: BTreeMap::new(), unknown: vec![], all_keys: vec![], ever_used: BTreeSet::new(), slot_ids: BTreeMap::new(), prop: prop_s, next_idx: 0 };
     // constructor: with_capacity(n) | new() | from_iter(initial members, any legal size_hint)
-    let ctor = w(|w| [0u8, 0, 1, 2][w.below(4)]);
+    let ctor = if sm.is_some() { 0 } else { w(|w| [0u8, 0, 1, 2][w.below(4)]) };
     // "mass" histories (6 %): many members, most of them degenerate (end / resolve at once, or after one wake), so
     // that ten and more members finish inside one poll of the group (inline buffers of the library spill there)
-    let mass = w(|w| w.chance(6));
+    let mass = sm.is_none() && w(|w| w.chance(6));
     MASS.with(|m| m.set(mass));
-    MASS_CLASS.with(|m| m.set(w(|w| w.below(3))));
-    let mut inserts_left = if mass { 11 + w(|w| w.below(8)) } else { 2 + w(|w| w.below(if thorough { 10 } else { 8 })) };
+    MASS_CLASS.with(|m| m.set(if sm.is_some() { 0 } else { w(|w| w.below(3)) }));
+    let mut inserts_left = match sm {
+        Some(sb) => sb.members,
+        None => {
+            if mass {
+                11 + w(|w| w.below(8))
+            } else {
+                2 + w(|w| w.below(if thorough { 10 } else { 8 }))
+            }
+        }
+    };
+    let mut reserves_left = 1usize;
     let mut ctor_desc = format!("with_capacity({cap0})");
     let mut init_f: Vec<BF> = vec![];
     let mut init_s: Vec<BS> = vec![];
@@ -310,7 +363,10 @@ pub fn run(prop: &str, thorough: bool, case_seed: u64, sub: u64) -> ExecOut {
     w(|w| w.phase = Phase::Idle);
     let mut out = ExecOut { key: format!("{}/{}", if streams { "stream_group" } else { "future_group" }, if keyed { "keyed" } else { "plain" }), ..Default::default() };
     let mut runnable = true;
-    let max_ops = 40 + w(|w| w.below(if thorough { 80 } else { 30 }));
+    let max_ops = match sm {
+        Some(sb) => sb.max_ops,
+        None => 40 + w(|w| w.below(if thorough { 80 } else { 30 })),
+    };
     let mut ops = 0usize;
     let mut steps = 0usize;
     let mut next_waker_id = 0usize;
@@ -347,6 +403,32 @@ pub fn run(prop: &str, thorough: bool, case_seed: u64, sub: u64) -> ExecOut {
         let woken = w(|w| w.root_last == RootLast::Pending && w.parent_woken);
         let can_poll = runnable || woken;
         let mut opts: Vec<u8> = vec![];
+        if sm.is_some() {
+            // small scope: every applicable operation exactly once, nothing gated by chance
+            if can_poll {
+                opts.push(0);
+            }
+            if !outstanding.is_empty() {
+                opts.push(1);
+            }
+            if !draining {
+                if inserts_left > 0 {
+                    opts.push(2);
+                }
+                if !h.all_keys.is_empty() {
+                    opts.push(3);
+                }
+                if nwakers > 0 {
+                    opts.push(4);
+                }
+                if reserves_left > 0 {
+                    opts.push(5);
+                }
+                if !can_poll {
+                    opts.push(6);
+                }
+            }
+        } else {
         if can_poll {
             opts.extend([0, 0, 0]);
         }
@@ -373,6 +455,7 @@ pub fn run(prop: &str, thorough: bool, case_seed: u64, sub: u64) -> ExecOut {
                 opts.push(7);
             }
         }
+        }
         if opts.is_empty() {
             if draining {
                 break;
@@ -380,7 +463,7 @@ pub fn run(prop: &str, thorough: bool, case_seed: u64, sub: u64) -> ExecOut {
             ops = max_ops;
             continue;
         }
-        if !draining && opts.iter().all(|o| *o == 3 || *o == 4) && w(|w| w.below(3) == 0) {
+        if sm.is_none() && !draining && opts.iter().all(|o| *o == 3 || *o == 4) && w(|w| w.below(3) == 0) {
             ops = max_ops;
             continue;
         }
@@ -397,7 +480,7 @@ pub fn run(prop: &str, thorough: bool, case_seed: u64, sub: u64) -> ExecOut {
                 if o == 6 {
                     w(|w| w.st.spurious_polls += 1);
                 }
-                let reuse = prev_waker.is_some() && w(|w| w.chance(10));
+                let reuse = sm.is_none() && prev_waker.is_some() && w(|w| w.chance(10));
                 let (wid, waker) = if reuse {
                     prev_waker.clone().unwrap()
                 } else {
@@ -544,7 +627,7 @@ pub fn run(prop: &str, thorough: bool, case_seed: u64, sub: u64) -> ExecOut {
             }
             1 => {
                 let c = outstanding[w(|w| w.below(outstanding.len()))];
-                let (i, bv) = w(|w| (w.ch[c].wakers.len() - 1, w.below(4) == 0));
+                let (i, bv) = w(|w| (w.ch[c].wakers.len() - 1, sm.is_none() && w.below(4) == 0));
                 fire(c, i, bv, FireCtx::Between);
                 w(|w| model::i1_check(w, "after fire"));
             }
@@ -553,7 +636,7 @@ pub fn run(prop: &str, thorough: bool, case_seed: u64, sub: u64) -> ExecOut {
                     let with: Vec<Cid> = w.ch.iter().enumerate().filter(|(_, c)| !c.wakers.is_empty()).map(|(i, _)| i).collect();
                     let c = with[w.below(with.len())];
                     let k = w.ch[c].wakers.len();
-                    (c, w.below(k), w.below(4) == 0)
+                    (c, w.below(k), sm.is_none() && w.below(4) == 0)
                 });
                 fire(c, i, bv, FireCtx::Between);
                 w(|w| model::i1_check(w, "after stale fire"));
@@ -678,7 +761,8 @@ pub fn run(prop: &str, thorough: bool, case_seed: u64, sub: u64) -> ExecOut {
                 }
             }
             _ => {
-                let n = w(|w| w.below(6));
+                let n = if sm.is_some() { [1usize, 3][w(|w| w.below(2))] } else { w(|w| w.below(6)) };
+                reserves_left = reserves_left.saturating_sub(1);
                 w(|w| {
                     w.phase = Phase::GroupOp;
                     w.st.group_reserves += 1;
